@@ -380,15 +380,21 @@ def run_estimate_lam(a, fac, f, g):
         F, G = fg_est.estimate(model(), subs.copy(), xs.copy(), ws.copy(), f, g, a["lcheck"], None if crng is None else crng.copy())
         F1 = fg_est.estimate(model(), subs.copy(), xs.copy(), ws.copy(), f, None, a["lcheck"], None if crng is None else crng.copy())
         G1 = fg_est.estimate(model(), subs.copy(), xs.copy(), ws.copy(), None, g, a["lcheck"], None if crng is None else crng.copy())
-        # second use of ONE model object (history class): the caller's model must be what it was (weights and factors bit for bit;
-        # fg_est.estimate normalises a copy since /repo dc891f8) and the second answer must be the first
+        # second use of ONE model object (history class): the second answer must be the first one (1e-9: were the caller's model normalised
+        # in place — it is not since /repo dc891f8, see `kept` — the second call would see rescaled factors and round differently).
+        # `kept` (caller's weights and factors bit for bit what they were) is recorded only: aliasing is C05's clause (row C05-N12), not C12's
         M = model()
         cr = lambda: None if crng is None else crng.copy()
         Fa, Ga = fg_est.estimate(M, subs.copy(), xs.copy(), ws.copy(), f, g, a["lcheck"], cr())
         kept = bool(np.array_equal(M.weights, lam) and len(M.factor_matrices) == len(fac)
                     and all(np.array_equal(x, y) for x, y in zip(M.factor_matrices, fac)))
         Fb, Gb = fg_est.estimate(M, subs.copy(), xs.copy(), ws.copy(), f, g, a["lcheck"], cr())
-        again = bool(fr(Fa) == fr(Fb) == fr(F) and mats(Ga) == mats(Gb) == mats(G))
+        near = lambda x, y: bool(np.all(np.abs(np.asarray(x, dtype=float) - np.asarray(y, dtype=float))
+                                        <= 1e-9 * np.maximum(1.0, np.abs(np.asarray(y, dtype=float)))))
+        again = bool(near(Fa, F) and near(Fb, F) and len(Ga) == len(G) == len(Gb)
+                     and all(np.shape(x) == np.shape(y) and near(x, y) for x, y in zip(Ga, G))
+                     and all(np.shape(x) == np.shape(y) and near(x, y) for x, y in zip(Gb, G))
+                     and (not kept or (fr(Fa) == fr(Fb) and mats(Ga) == mats(Gb))))     # an untouched model must answer bit for bit the same
     o = {"F": fr(F), "G": mats(G), "F1": fr(F1), "G1": mats(G1), "kept": kept, "again": again}
     if a["mode"] == "full":
         X = ttb.tensor(np.array(a["data"], dtype=float).reshape(tuple(shp), order="F"))
@@ -426,7 +432,7 @@ def check_estimate_lam(a, o, As):
         sargs = f"{gnat(R)} {gnmat(a['subs'])} {gzlist(a['xs'])} {gzlist(a['ws'])} {gnlist(a['crng'] or [])}"
     mF = f"(zest_lam_F {fid} {lc} {gzlist(lam)} {As} {sargs})"
     mG = f"(zest_lam_G {fid} {lc} {gzlist(lam)} {As} {sargs} {gnlist(shp)})"
-    if not (o.get("kept", True) and o.get("again", True)):
+    if not o.get("again", True):
         return "false"
     e = (f"zq_close {gq(Fraction(o['F']))} {mF} && zq_close {gq(Fraction(o['F1']))} {mF} && "
          f"scaled_close {gcs} {mG} {gobs(o['G'])} && scaled_close {gcs} {mG} {gobs(o['G1'])}")
@@ -469,8 +475,8 @@ def oracle_tensor(op, a, o):
     f, g = PF[a["fid"]], PG[a["fid"]]
     if op == "estimate_lam":
         if o.get("again") is False:
-            return ("fg_est.estimate called twice on the same model object with the same sample returns two different answers"
-                    + ("" if o.get("kept") else " (the first call rewrote the caller's model)"))
+            return ("fg_est.estimate called twice on the same model object with the same sample returns two different answers (beyond 1e-9)"
+                    + ("" if o.get("kept") else "; the first call rewrote the caller's model"))
         # independent statement of what C12 says here: with lambda_check (or unit weights) the estimate on every entry with unit
         # sample weights is the exact objective of the weighted model; on a sample it is the weighted sample sum of the loss at the
         # weighted model's values
